@@ -1,3 +1,4 @@
+use super::util::hex_escape_end;
 use super::value::value_expression;
 use super::{PResult, Span, input_to_str, input_to_string};
 use crate::sass::{SassString, StringPart};
@@ -520,7 +521,7 @@ fn escaped_char(input: Span) -> PResult<char> {
                         one_of("0123456789ABCDEFabcdef"),
                     )),
                     alt((
-                        value(true, tag(" ")),
+                        value(true, hex_escape_end),
                         value(
                             true,
                             peek(not(one_of("0123456789ABCDEFabcdef"))),
